@@ -111,9 +111,12 @@ impl super::Bundle {
         // All other data except the UTXO and proprietary fields in the input should be
         // cleared from the PSBT. The UTXO should be kept to allow Transaction Extractors
         // to verify the final network serialized transaction.
+        //
+        // `required_time_lock_time` and `required_height_lock_time` are kept as well: the
+        // transaction's lock time is determined from them (BIP 370), so clearing them
+        // would change the effects of the transaction (and thus the sighash that the
+        // signatures just placed into `script_sig` commit to).
         for input in &mut self.inputs {
-            input.required_time_lock_time = None;
-            input.required_height_lock_time = None;
             input.redeem_script = None;
             input.partial_signatures.clear();
             input.bip32_derivation.clear();
